@@ -493,3 +493,226 @@ def close(a, b, scale=1.0, rel=1e-9, abs_=1e-12):
     if a in (float('inf'), float('-inf')) or b in (float('inf'), float('-inf')):
         return a == b
     return abs(a - b) <= rel * max(abs(a), abs(b), scale) + abs_
+
+
+# --------------------------------------------------------------------------
+# HISTORY stream (shared by C08 and C09): objects are re-used after other objects were derived
+# from them.  Every sub-expression is observed right after it is built, further expressions are
+# built ON TOP of it (and evaluated), then every earlier sub-expression is observed again: the
+# answers must be bitwise identical to the recorded ones, equal to those of an independently
+# re-built clone, and the user's own vectors passed to constructors must be unchanged.
+
+HISTORY_DERIVE = ('trans', 'lscal', 'rscal', 'rvec', 'ssum', 'sum', 'qp', 'conj', 'biconj')
+HISTORY_USE = ('prox', 'grad')           # taken and applied, no new functional
+HISTORY_KINDS = HISTORY_DERIVE + HISTORY_USE
+
+
+def _hx(v):
+    """bitwise-comparable form of an outcome"""
+    if isinstance(v, str):
+        return v
+    if isinstance(v, (list, tuple)):
+        return tuple(_hx(t) for t in v)
+    return float(v).hex()
+
+
+class _HEntry(object):
+    def __init__(self, f, recipe, how):
+        self.f, self.recipe, self.how = f, recipe, how
+        self.obs = None
+        self.derived = []          # kinds built on top of this object afterwards
+
+
+def _observe(f, S, probes, mode):
+    """Everything the property looks at, at the episode's probe points (outcome strings for
+    exceptions)."""
+    x, x2, y, d, sigma = probes
+    out = []
+
+    def call(fn):
+        st, v = safe_call(fn)
+        return v if st == 'ok' else st.split(':')[0] + ':' + st.split(':')[1]
+    out.append(('value', _hx(call(lambda: float(f(x))))))
+    out.append(('value2', _hx(call(lambda: float(f(x2))))))
+    out.append(('gradient', _hx(call(lambda: S.flat(f.gradient(x))))))
+    if mode == 'C08':
+        out.append(('conj-value', _hx(call(lambda: float(f.convex_conj(y))))))
+        out.append(('conj-at-gradient', _hx(call(lambda: float(f.convex_conj(f.gradient(x)))))))
+        out.append(('proximal', _hx(call(lambda: S.flat(f.proximal(sigma)(x))))))
+        out.append(('conj-proximal', _hx(call(lambda: S.flat(f.convex_conj.proximal(1.0 / sigma)(x / sigma))))))
+        out.append(('biconj-value', _hx(call(lambda: float(f.convex_conj.convex_conj(x))))))
+    else:
+        out.append(('derivative', _hx(call(lambda: float(f.derivative(x)(d))))))
+        out.append(('grad_lipschitz', _hx(call(lambda: float(f.grad_lipschitz)))))
+        out.append(('gradient2', _hx(call(lambda: S.flat(f.gradient(x2))))))
+    return tuple(out)
+
+
+def history_episode(S, rng, mode, hit=None):
+    """Run one history episode on the real code. Returns a list of problems (strings) and the
+    set of strata exercised."""
+    n = S.size
+    strata = set()
+    owned = []                     # (description, live element, bitwise copy)
+
+    def own(vals, what):
+        e = S.elem(vals)
+        owned.append((what, e, _hx(S.flat(e))))
+        return e
+
+    probes = (S.elem(rvec(rng, n, -8, 8, 4)), S.elem(rvec(rng, n, -6, 6, 2)),
+              S.elem(rvec(rng, n, -4, 4, 8)), S.elem(rvec(rng, n, -4, 4, 2)),
+              rng.choice([0.5, 1.0, 2.0]))
+    leaves = [['l1'], ['l2sq'], ['lin', rvec(rng, n), 0.5], ['quadscale', 2.0, rvec(rng, n), 1.0],
+              ['const', 1.5], ['l2']]
+    if not S.is_pspace:
+        leaves.append(['huber', 0.5])
+    pool = []
+    problems = []
+
+    def add(f, recipe, how):
+        e = _HEntry(f, recipe, how)
+        e.obs = _observe(f, S, probes, mode)
+        pool.append(e)
+        return e
+
+    for r in rng.sample(leaves, 3):
+        st, f = safe_call(build, r, S, True)
+        if st == 'ok':
+            add(f, r, 'leaf')
+    n_steps = rng.randint(6, 10)
+    kinds = list(HISTORY_KINDS)
+    for step in range(n_steps):
+        kind = rng.choice(kinds + ['trans', 'trans', 'lscal', 'rscal'])
+        par = rng.choice(pool)
+        same = [e for e in pool if e.how == kind]
+        if same and rng.random() < 0.5:
+            # stack a node on an object built by the SAME constructor: these constructors merge
+            # (translation of a translation, scaling of a scaling) and share state with the child
+            par = rng.choice(same)
+        f = par.f
+        new, recipe = None, None
+        try:
+            if kind == 'trans':
+                a = rvec(rng, n)
+                new, recipe = f.translated(own(a, 'translation')), ['trans', a, par.recipe]
+            elif kind == 'lscal':
+                s = rng.choice([2.0, 0.5, 3.0])
+                new, recipe = s * f, ['lscal', s, par.recipe]
+            elif kind == 'rscal':
+                s = rng.choice([2.0, -0.5, 0.25])
+                new, recipe = f * s, ['rscal', s, par.recipe]
+            elif kind == 'rvec':
+                v = [rng.choice([1.0, 2.0, -1.0, 0.5]) for _ in range(n)]
+                new, recipe = f * own(v, 'vector'), ['rvec', v, par.recipe]
+            elif kind == 'ssum':
+                c = rng.choice([1.0, -2.5])
+                new, recipe = f + c, ['ssum', c, par.recipe]
+            elif kind == 'sum':
+                other = rng.choice(pool)
+                new, recipe = (2.0 * f) + other.f, ['sum', ['lscal', 2.0, par.recipe], other.recipe]
+                other.derived.append('sum')
+                strata.add('history/shared-child')
+            elif kind == 'qp':
+                from odl.solvers.functional.functional import FunctionalQuadraticPerturb
+                a_, u, c = rng.choice([0.0, 0.0, 1.0]), rvec(rng, n), rng.choice([0.0, 1.0])
+                new = FunctionalQuadraticPerturb(f, quadratic_coeff=a_, linear_term=own(u, 'linear_term'),
+                                                 constant=c)
+                recipe = ['qp', a_, u, c, par.recipe]
+            elif kind == 'conj':
+                new, recipe = f.convex_conj, ['conj', par.recipe]
+            elif kind == 'biconj':
+                new, recipe = f.convex_conj.convex_conj, ['conj', ['conj', par.recipe]]
+            elif kind == 'prox':
+                f.proximal(probes[4])(probes[0])
+            elif kind == 'grad':
+                f.gradient(probes[1])
+        except Exception:  # noqa  (no conjugate / proximal / gradient for this class: not a history issue)
+            continue
+        par.derived.append(kind)
+        if new is not None:
+            add(new, recipe, kind)
+        # interleave: re-observe one random earlier object right away
+        chk = rng.choice(pool)
+        now = _observe(chk.f, S, probes, mode)
+        if now != chk.obs:
+            problems.append(_history_diff(chk, now, 'interleaved after building ' + kind))
+    # final pass: every earlier sub-expression again, and against an independent clone
+    for e in pool:
+        now = _observe(e.f, S, probes, mode)
+        for k in e.derived:
+            strata.add('history/reuse-after-derive/' + k)
+        if now != e.obs:
+            problems.append(_history_diff(e, now, 'after ' + '/'.join(e.derived or ['nothing'])))
+            continue
+        st, clone = safe_call(build, e.recipe, S, True)
+        if st == 'ok':
+            ref = _observe(clone, S, probes, mode)
+            bad = [(a[0], a[1], b[1]) for a, b in zip(now, ref) if not _obs_close(a[1], b[1])]
+            if bad:
+                problems.append('{} [{}] differs from an independently re-built clone: {} = {} vs {}'
+                                .format(recipe_str(e.recipe)[:160], e.how, bad[0][0],
+                                        _unhx(bad[0][1]), _unhx(bad[0][2])))
+    for what, el, snap in owned:
+        if _hx(S.flat(el)) != snap:
+            problems.append('user {} passed to a constructor was modified: now {}'.format(
+                what, S.flat(el)))
+    return problems, strata
+
+
+def _unhx(v):
+    if isinstance(v, tuple):
+        return [_unhx(t) for t in v][:6]
+    try:
+        return float.fromhex(v)
+    except (ValueError, TypeError):
+        return v
+
+
+def _obs_close(a, b):
+    if a == b:
+        return True
+    if isinstance(a, tuple) and isinstance(b, tuple) and len(a) == len(b):
+        return all(_obs_close(p, q) for p, q in zip(a, b))
+    if isinstance(a, str) and isinstance(b, str):
+        try:
+            return close(float.fromhex(a), float.fromhex(b), 1.0, 1e-10, 1e-12)
+        except ValueError:
+            return False
+    return False
+
+
+def _history_diff(e, now, when):
+    for (k, a), (_, b) in zip(e.obs, now):
+        if a != b:
+            return ('{} [built by {}], re-used {}: {} was {} when recorded, now {}'.format(
+                recipe_str(e.recipe)[:160], e.how, when, k, _unhx(a), _unhx(b)))
+    return 'observation changed'
+
+
+def history_stream(ctx, mode, n_episodes):
+    """Run history episodes on every space; report violations with a replayable episode seed."""
+    import random
+    for S in all_spaces():
+        for i in range(n_episodes):
+            seed = ctx.rng.getrandbits(48)
+            problems, strata = history_episode(S, random.Random(seed), mode)
+            for b in strata:
+                ctx.hit(b)
+            ctx.case(('history', S.kind, tuple(sorted(strata))),
+                     sample={'history': True, 'space': S.name, 'episode_seed': seed}
+                     if len(ctx.samples) < 12 else None)
+            for p in problems[:3]:
+                ctx.violation('history reuse-after-derive space={}({})'.format(S.name, S.kind), p,
+                              {'history': True, 'space': S.name, 'episode_seed': seed, 'mode': mode})
+
+
+def history_replay(case):
+    import random
+    S = get_space(case['space'])
+    problems, _ = history_episode(S, random.Random(int(case['episode_seed'])), case['mode'])
+    return '; '.join(problems[:2]) or None
+
+
+def history_expected_branches():
+    return ['history/reuse-after-derive/' + k for k in HISTORY_KINDS] + ['history/shared-child']
